@@ -233,6 +233,12 @@ func runC14(t *testing.T, rng *rand.Rand, rec *sim.Rec, tier string, caseNo int)
 	if caseNo%10 == 7 {
 		conf = confs[2]
 	}
+	// a client configured to refresh its permissions every 30 s against a server that keeps them
+	// for 70 s only (compatible with that interval, not with the 2-minute default)
+	fastPerms := caseNo%10 == 9
+	if fastPerms {
+		conf = sc{70 * time.Second, 0, 0}
+	}
 	cfg := sim.Config{
 		Realm: "verif.test", Users: map[string]string{"alice": "pw-a"},
 		PermTimeout: conf.perm, ChanTimeout: conf.ch, Lifetime: conf.life,
@@ -250,6 +256,9 @@ func runC14(t *testing.T, rng *rand.Rand, rec *sim.Rec, tier string, caseNo int)
 	rc, err := sim.NewRealClient(w.Net, net.IPv4(10, 1, 0, 1).To4(), 5000, "10.0.0.1:3478", "alice", "pw-a", "verif.test", 0, logs, func(c *turn.ClientConfig) {
 		if crossFamily {
 			c.RequestedAddressFamily = turn.RequestedAddressFamilyIPv6
+		}
+		if fastPerms {
+			c.PermissionRefreshInterval = 30 * time.Second
 		}
 	})
 	if err != nil {
@@ -457,7 +466,7 @@ func runC14(t *testing.T, rng *rand.Rand, rec *sim.Rec, tier string, caseNo int)
 		time.Sleep(gap)
 		ok = probe()
 	}
-	rec.FP("run/%s/peers=%d/lossy=%v/perm=%v/chan=%v/life=%v/cross-family=%v", pattern, min(npeers, 3), lossy, conf.perm, conf.ch, conf.life, crossFamily)
+	rec.FP("run/%s/peers=%d/lossy=%v/perm=%v/chan=%v/life=%v/cross-family=%v/fast-perms=%v", pattern, min(npeers, 3), lossy, conf.perm, conf.ch, conf.life, crossFamily, fastPerms)
 	rec.EvN("virtual-minutes", int(time.Since(start)/time.Minute))
 	pmu.Lock()
 	rec.EvN("control-datagrams-dropped", dropped)
